@@ -679,6 +679,18 @@ def judge(rule, source, tree, cli_recs, upd, snap, hres, run_recs):
                             okfa = False
                         else:
                             fe.append((b[0], b[1], x["newText"]))
+            # the `ast-grep.applyAllFixes` command must hand the client the same edits as the code action
+            if "apply_all_fixes_edits" in lsp:
+                ae = []
+                for req in lsp["apply_all_fixes_edits"]:
+                    for v in ((req.get("edit") or {}).get("changes") or {}).values():
+                        for x in v:
+                            b = to_bytes(x["range"])
+                            if b is not None:
+                                ae.append((b[0], b[1], x["newText"]))
+                info["apply_all_compared"] = 1
+                if okfa and "error" not in fa and sorted(ae) != sorted(fe):
+                    bad("lsp.applyAllFixes!=lsp.fixall", command=[list(x) for x in ae], code_action=[list(x) for x in fe])
             if "error" in fa:
                 bad("lsp.fixall:error-response", response=fa)
             elif not okfa or len(facts) > 1:
